@@ -175,6 +175,31 @@ def stepRedis (st : DState) (conn : String) (node : Node) (name : String) (args 
           onKey st key (fun s => (actorsFor pref s).map (fun a => Label.exe a node c r)) s!"exe {conn} {name} => {rep}"
         | _, _ => refuse st s!"cannot parse backend command {name} / reply {rep}"
 
+/-- optional step: the states that take it join those that do not -/
+def onKeyOpt (st : DState) (k : String) (cands : Sys → List Label) : DState :=
+  match setFor st k with
+  | none => st
+  | some S => putSet st k (dedup (closure S ++ applyVisible S cands))
+
+/-- `flt <conn> <target> CMD keys…`: the connection fails at this command (nothing is executed) -/
+def stepFault (st : DState) (conn : String) (name : String) (args : List String) : DState × String :=
+  let pref := (conn.take 2).toString
+  if pref != "Sx" then refuse st "fault on a connection that is not a client of the migrating task"
+  else if name == "SCAN" || name == "RESTORE" || name == "PING" then (st, "ok")   -- re-sent / re-scanned
+  else if name == "PTTL" || name == "DUMP" || name == "DEL" then
+    let keys := args.filter (fun k => st.keysIn.contains k)
+    -- the failing command's own key(s): fast path or scan batch must be abandoned
+    let r := keys.foldl (fun (acc : DState × String) k =>
+      if acc.2 != "ok" then acc
+      else onKey acc.1 k (fun _ => [Label.syncFault false, Label.scanFault]) s!"flt {conn} {name}") (st, "ok")
+    if r.2 != "ok" then r
+    else
+      -- other keys of the same scan batch are abandoned with it
+      let st' := (st.keysIn.filter (fun k => !keys.contains k)).foldl (fun acc k =>
+        onKeyOpt acc k (fun _ => [Label.scanFault])) r.1
+      (st', "ok")
+  else refuse st s!"fault at an unexpected command {name}"
+
 partial def stepProxy (st : DState) (target : Proxy) (name : String) (args : List String) (rep : String) : DState × String :=
   -- `UMFORWARD <remaining redirections> CMD args…`: the wrapped command is what the peer dispatches
   if name == "UMFORWARD" then
@@ -248,6 +273,7 @@ def step (st : DState) (toks : List String) : DState × String :=
           if S'.isEmpty then refuse st s!"fin {key}: no model state has src={toks.getD 2 ""} dst={toks.getD 3 ""}"
           else (putSet st key S', "ok")
         | _, _, _ => refuse st "cannot parse fin line"
+    | "flt" :: conn :: _target :: name :: rest => stepFault st conn name rest
     | "exe" :: conn :: target :: name :: rest =>
       let (args, rep) := match rest.span (· != "=>") with
         | (a, _ :: r :: _) => (a, r)
